@@ -10,6 +10,15 @@ PANIC_FNS = ("core::panicking::", "std::rt::begin_panic", "core::option::expect_
 CRATE_EXPECT = ("expect",)
 
 
+# callee -> [(variant index of the payload or None for a plain integer result, strict)]: the payload is < (strict) or <= the length of the slice argument
+LEN_BOUNDED = {
+    "core::slice::<impl [T]>::binary_search": [(0, True), (1, False)],
+    "core::slice::<impl [T]>::binary_search_by_key": [(0, True), (1, False)],
+    "core::slice::<impl [T]>::binary_search_by": [(0, True), (1, False)],
+    "core::slice::<impl [T]>::partition_point": [(None, False)],
+}
+
+
 def str_of_arg(F, st, a):
     if a["k"] == "const" and isinstance(a.get("v"), str):
         return a["v"]
@@ -109,6 +118,38 @@ def call(F, bi, st, t):
         src = F.slice_src(st, t["args"][0], args[0][0])
         if src is not None:
             st.lenof[dest["l"]] = src
+    if name in LEN_BOUNDED and not dest["p"] and args:
+        # results that are positions in a slice: order facts against the length of that very slice (pseudo-source `len`)
+        src = F.slice_src(st, t["args"][0], args[0][0])
+        if src is not None:
+            X = ("len",) + tuple(src[1:])
+            D, ver = dest["l"], st.ver.get(dest["l"], 0)
+            for vidx, strict in LEN_BOUNDED[name]:
+                proj = () if vidx is None else (("d", vidx), ("f", 0, None))
+                st.ordf = st.ordf | {(X, ("pl", D, proj, ver), strict)}
+    if name is not None and name.endswith(("::checked_sub", "::checked_add")) and name.startswith("core::num::<impl u") and not dest["p"] and len(args) == 2 and st.ordf:
+        c = F.as_int(args[1][0], args[1][1])
+        if c is not None and c[1] == c[2]:
+            k = c[1]
+            s0 = F.own_src(st, t["args"][0])
+            if s0 is not None:
+                import absfn as _af
+                cands = (s0, F._orig(st, s0))
+                D, ver = dest["l"], st.ver.get(dest["l"], 0)
+                some = ("pl", D, (("d", 1), ("f", 0, None)), ver)
+                add = set()
+                for (x, y, strict) in st.ordf:
+                    if x[0] != "len" or st.ver.get(x[1], 0) != x[3] or st.ver.get(y[1], 0) != y[3]:
+                        continue
+                    if any(_af._ns(cc) == _af._ns(y) for cc in cands):
+                        if name.endswith("checked_sub") and k >= 0:
+                            add.add((x, some, strict or k >= 1))
+                        elif name.endswith("checked_add") and k == 0:
+                            add.add((x, some, strict))
+                        elif name.endswith("checked_add") and k == 1 and strict:
+                            add.add((x, some, False))
+                if add:
+                    st.ordf = st.ordf | add
     if name in ("std::ops::RangeInclusive::<Idx>::contains", "std::ops::Range::<Idx>::contains") and not dest["p"] and len(args) == 2:
         rng = deref_val(F, st, args[0][0])
         x = args[1][0]
